@@ -363,7 +363,9 @@ func solveMBQI(q string, getvals []string, timeoutS int, dir, name string) Solve
 	}
 	body := "(set-option :produce-models true)\n(set-logic ALL)\n" + q + "(check-sat)\n" + gv
 	os.WriteFile(file, []byte(body), 0o644)
-	defer os.Remove(file)
+	if os.Getenv("GOVC_KEEP") == "" {
+		defer os.Remove(file)
+	}
 	sp := solverSpec{"z3-new-5.1.0+mbqi", func(f string, t int) []string {
 		return []string{"z3-new", fmt.Sprintf("-T:%d", t), f}
 	}}
